@@ -20,9 +20,22 @@ def cases(tier, rng):
         w, h = rng.choice([(rng.randrange(0, 60), rng.randrange(0, 60)), (rng.randrange(0, 6), rng.randrange(0, 100)),
                            (rng.randrange(0, 100), rng.randrange(0, 6))])
         yield J('ell_geom', x, y, w, h, 2)
+    yield from _machine(tier, rng)
+
+
+def _machine(tier, rng):
+    # contains() alone at display scale and on both sides of the machine range (suites and generator of C05)
+    import C05
+    for k, l in enumerate(C05.machine_cases(tier, rng)):
+        if k % 4 == 0:
+            yield l
 
 
 def search(tier, rng):
+    for d in [1, 11, 240, 20000, 32768]:
+        yield J('p_circ_far', -7, 3, d)
+    for (w, h) in [(320, 240), (1000, 500), (3, 200)]:
+        yield J('p_ell_far', -7, 3, w, h)
     N = 48 if tier == 'quick' else 128
     for d in range(0, N + 1):
         x, y = POSITIONS[d % 4]
